@@ -104,6 +104,9 @@ def gen_case(rng, i, tier, pool):
             tr["rate"] = [math.exp(rng.uniform(-4, -1))]
         else:
             tr["rate"] = [math.exp(rng.uniform(-4, -1)) for _ in range(2 * n - 2)]
+    if treekind == "unrooted" and n >= 3 and rng.random() < 0.3:
+        # the same tree written with its lengths in the newick string (keep_branch_lengths), the root edge split
+        tr["newick"] = newick_with_lengths(t, names, tr["bl"], rng.choice([0.5, rng.uniform(0.05, 0.95)]), taxa_order)
     tip = rng.choice(["partials_amb", "partials_noamb", "states"])
     case = dict(tree=t, n=n, names=names, taxa_order=taxa_order, seq_order=seq_order, seqs=seqs,
                 subst=sp, site=sm, treem=tr, tip=tip)
@@ -185,12 +188,35 @@ def build(case):
     return H.tracked(TreeLikelihoodModel, d)
 
 
+def newick_with_lengths(tree, names, bl, frac, taxa_order):
+    """the unrooted tree of the case with its lengths written in the newick string: node j carries bl[j];
+    the root edge bl[other] is split frac : 1 - frac between the two root children"""
+    n = len(names)
+    it = trees.index_tree(tree)
+    rep = lambda x: repr(float(x))
+    ix = lambda u: taxa_order.index(u) if isinstance(u, int) else u[0]     # leaves are indexed by taxon position
+
+    def rec(u, length):
+        if isinstance(u, int):
+            return f"{names[u]}:{rep(length)}"
+        return "(" + rec(u[1], bl[ix(u[1])]) + "," + rec(u[2], bl[ix(u[2])]) + f"):{rep(length)}"
+    a, b = it[1], it[2]
+    ia, ib = ix(a), ix(b)
+    e = bl[ia] if ia < 2 * n - 3 else bl[ib]       # the child with the last index has no entry: the other carries the edge
+    return "(" + rec(a, frac * e if ia < ib else (1 - frac) * e) + "," + rec(b, (1 - frac) * e if ia < ib else frac * e) + ");"
+
+
 def run_impl(case):
     torch = impl.load()
     like = build(case)
     value = float(like().detach())
     n = case["n"]
     bl = like.tree_model.branch_lengths().detach()
+    if case["treem"].get("newick"):
+        want = case["treem"]["bl"]
+        got = [float(x) for x in bl]
+        if len(got) != len(want) or any(abs(g - w) > 1e-12 * max(1.0, abs(w)) for g, w in zip(got, want)):
+            raise ValueError(f"keep_branch_lengths: branch_lengths() = {got} but the newick string says {want}")
     if like.clock_model is None:
         lengths = [float(x) for x in bl] + [0.0]
     else:
@@ -401,7 +427,9 @@ def run(tier, seed, replay=None):
                      ("site_rates", lambda o: o.site_model.rates()), ("q", lambda o: o.subst_model.q()),
                      ("node_heights", lambda o: getattr(o.tree_model, "node_heights", None)),
                      ("site_probs", lambda o: o.site_model.probabilities())]
-            fs = H.run(like, lambda o: float(o().detach()), hrng, reads=reads, steps=2)
+            # (with keep_branch_lengths a rebuilt object takes its lengths from the newick string again)
+            fs = H.run(like, lambda o: float(o().detach()), hrng, reads=reads, steps=2,
+                       frozen=("bl",) if v["treem"].get("newick") else ())
             nh += 1
             tk = "TimeTreeModel" if v["treem"].get("plain_heights") is not None else v["treem"]["kind"]
             for f in fs:
@@ -412,13 +440,46 @@ def run(tier, seed, replay=None):
     for f in hist_found.values():
         rep.violation(*f)
     rep.timings["histories"] = round(time.time() - t0, 2)
+    # ---- large trees: the plain recursion underflows, the evaluation that detects it and the following
+    #      ones take other code paths; repeated columns (pattern weight 2); reference = interval run
+    t0 = time.time()
+    from harness.props import c03
+    torch = impl.load()
+    big, nbig = [], (560 if tier == "quick" else 640)
+    brng = random.Random(seed + 29)
+    for shape, sub, x in (("random", dict(type="HKY", kappa=2.5, freqs=[0.15, 0.35, 0.3, 0.2]), 0.25),
+                          ("caterpillar", dict(type="JC69"), 0.6)):
+        try:
+            tb = c03.make_tree(shape, nbig, brng)
+            lkb, _ = c03.build(shape, nbig, tb, sub, x)
+            vals = [float(lkb().detach()), float(lkb().detach())]
+            Ms = [lkb.subst_model.p_t(torch.tensor([x * f])).detach().reshape(4, 4).tolist() for f in (1.0, 1.75)]
+            fr = [float(v) for v in lkb.subst_model.frequencies.detach().reshape(-1)]
+            big.append((shape, sub, x, tb, vals, c03.coq_case(shape, nbig, tb, Ms, fr)))
+        except Exception as e:  # noqa
+            rep.violation(f"C01:raises:large-tree:{type(e).__name__}", f"{shape} tree with {nbig} taxa: "
+                          f"{type(e).__name__}: {str(e)[:160]}", dict(shape=shape, n=nbig, subst=sub, x=x))
+    if big:
+        resb = C.run_cases(PID + "big", c03.HEADER, [b[5] for b in big], shard=1, timeout=1500)
+        for (shape, sub, x, tb, vals, _), flat in zip(big, resb):
+            iv = C.ival_to_fracs(flat)
+            for k, v in enumerate(vals):
+                rep.case(dict(big=shape, k=k), nontrivial=True)
+                if iv is None or not (math.isfinite(v) and rel_close(v, *iv)):
+                    rep.violation(f"C01:not-marginal:large-tree:{'first' if k == 0 else 'later'}-evaluation",
+                                  f"{shape} tree, {nbig} taxa, {sub['type']}, 3 columns (one repeated): evaluation {k + 1} "
+                                  f"returns {v!r}, the marginalisation (interval run of the proved model) gives "
+                                  f"{None if iv is None else float(iv[0])!r}",
+                                  dict(shape=shape, n=nbig, subst=sub, branch_scale=x, evaluation=k + 1, value=v))
+    rep.timings["large_trees"] = round(time.time() - t0, 2)
     rep.rule = ("all rooted binary topologies for 3..4 (quick) / 3..6 (thorough) taxa with random child order + random/"
                 "caterpillar/balanced trees to 8 (12) taxa; alignments over the 18-symbol alphabet (both cases) with "
                 "forced repeated columns; taxa list and sequence list independently permuted; {JC69,HKY,GTR} x "
                 "{constant,+mu,invariant,Weibull(K),Weibull(K)+inv} x {unrooted, time tree + strict/simple clock} x "
                 "{tip partials with/without ambiguities, tip states}; + same-object histories (evaluate, assign 1-2 parameters, "
                 "read cached intermediates in random order, evaluate) against freshly built objects, time trees also as "
-                "plain TimeTreeModel; non-trivial = >= 3 taxa; distinct = distinct case")
+                "plain TimeTreeModel; two trees with 560 / 640 taxa on which the plain recursion underflows (first and second "
+                "evaluation); non-trivial = >= 3 taxa; distinct = distinct case")
     rep.extra = dict(input_distribution=dist, model_undefined=undefined, exhaustive_topologies=len(pool),
                      traces_validated_against_impl=len(idx), mismatches=len(mism), histories=nh,
                      translator_units=["datatype tables -> gen/G_datatype.v"])
